@@ -71,6 +71,14 @@ Theorem C13_gauss_int_inside : forall (erfR : R -> R) tu ts te sg tol t1 t2,
 Proof. exact gauss_int_inside. Qed.
 Print Assumptions C13_gauss_int_inside.
 
+(* get_total_integral is the integral over the CURRENT support window (a function of the state only:
+   together with C13_update_box / C13_update_gauss, updated and constructed profiles have the same total) *)
+Theorem C13_total : forall (erfR : R -> R) p,
+  t_total (RNum erfR) p =
+    match p with UnityT _ ts te | Box _ ts te | Gauss _ ts te _ _ => t_int (RNum erfR) p None ts te end.
+Proof. exact t_total_spec. Qed.
+Print Assumptions C13_total.
+
 (* ---------------------------------------------------------------- product *)
 Theorem C13_product : forall (erfR : R -> R) s l Phi0 ls le lt sp ep tp rd E t eu tu,
   nth_error s l = Some (OM Phi0 ls le lt) ->
